@@ -59,6 +59,52 @@ def findRuleIdx (s : Sheet) (p : Nat) : Option Nat :=
 def usedURIs (s : Sheet) : List Nat :=
   s.flatMap (fun r => if r.kind = .style || r.kind = .media then r.used else [])
 
+/-! ### a selector's namespace at serialisation and at parse time -/
+
+/-- the namespace half of a stored `(namespaceURI, name)` pair -/
+inductive NsV
+  | none            -- Python None: parsed without a default namespace
+  | any             -- `*|name`
+  | empty           -- `|name`
+  | uri (u : Nat)
+  deriving DecidableEq, Repr
+
+/-- how a name is written -/
+inductive PForm
+  | bare            -- `name`
+  | star            -- `*|name`
+  | bar             -- `|name`
+  | named (p : Nat) -- `p|name`
+  deriving DecidableEq, Repr
+
+/-- `prefixForNamespaceURI` -/
+def prefixFor (d : List (Nat × Nat)) (u : Nat) : Option Nat := (d.find? (·.2 = u)).map (·.1)
+
+/-- `do_css_Selector`: the form chosen for a pair under the mapping `d` (prefix 0 = the default namespace) -/
+def serForm (d : List (Nat × Nat)) (ns : NsV) : PForm :=
+  let dflt := dictGet d 0
+  if (match ns, dflt with
+      | .uri u, some v => decide (u = v)
+      | .none, none => true
+      | _, _ => false) then .bare
+  else match ns with
+    | .any => .star
+    | .uri u => (match prefixFor d u with
+        | some p => if p = 0 then .bar else .named p
+        | none => .bar)            -- IndexError → prefix ''
+    | .none => .bar
+    | .empty => .bar
+
+/-- `append()` of the selector parser: the namespace a written form denotes under `d`
+(`none` = undeclared prefix, the selector is rejected); for an attribute name `.none` stands for
+"not namespaced" (a plain string, no pair) and `|a` is the same as `a` -/
+def resolveForm (d : List (Nat × Nat)) (attr : Bool) : PForm → Option NsV
+  | .bare => some (if attr then .none     -- attribute names are not in the default namespace
+      else match dictGet d 0 with | some u => .uri u | none => .none)
+  | .star => some .any
+  | .bar => some (if attr then .none else .empty)
+  | .named p => (dictGet d p).map .uri
+
 /-! ### deleteRule -/
 
 /-- Python list index: negative counts from the end -/
